@@ -57,6 +57,31 @@ func DecodeUnknownObject(data []byte, expectNextTypes ...reflect.Type) (Object, 
 	return obj, nil
 }
 
+// maxNestedDecoders: how many times an object that carries the serialisation of another object (a packed
+// object) may be nested before the data is refused. Every level keeps its own copy of everything below it,
+// so n levels need memory quadratic in n (a message of 3000 packed levels, 117 KB, cost 1.8 GB).
+const maxNestedDecoders = 4
+
+// DecodeNestedObject decodes an object whose serialisation was found inside the object that d is decoding.
+// It works like DecodeUnknownObject with the hints d has not used yet, but refuses data nested too deep.
+func (d *Decoder) DecodeNestedObject(data []byte) (Object, error) {
+	if d.depth >= maxNestedDecoders {
+		return nil, errors.New("objects nested too deep")
+	}
+	nested, err := NewDecoder(bytes.NewReader(data))
+	if err != nil {
+		return nil, err
+	}
+	nested.depth = d.depth + 1
+	nested.expectedTypes = d.expectedTypes
+
+	obj := nested.decodeRegisteredObject()
+	if nested.err != nil {
+		return nil, errors.Wrap(nested.err, "decoding predicted object")
+	}
+	return obj, nil
+}
+
 func (d *Decoder) decodeObject(o Object, ignoreCRC bool) {
 	if d.err != nil {
 		return
